@@ -521,6 +521,13 @@ def cart_from_spec(spec):
             continue
         if r == 'zero':
             regions[k] = bytes(REGION_SIZE[k])
+        elif isinstance(r, dict) and '$fill' in r:
+            # every byte the same value (0xff, 0x80, 0x7f, ...)
+            b = bytearray([r['$fill'] & 0xff]) * REGION_SIZE[k]
+            if k == MUSIC:
+                for i in range(3, len(b), 4):
+                    b[i] &= 0x7f
+            regions[k] = bytes(b)
         elif isinstance(r, int):
             b = bytearray(core.rnd_bytes(r, REGION_SIZE[k]))
             if k == MUSIC:
